@@ -468,8 +468,8 @@ func runC07(sc C07Sc, c *kit.Case) *kit.Violation {
 				}
 			}
 		}
-		if !sv.barrier(c) {
-			return nil
+		if v := sv.barrierOrWedged(c, "C07", what); v != nil || c.Inconclusive != "" {
+			return v
 		}
 		c.Logf("%s", what)
 		if v := verify(what); v != nil || c.Inconclusive != "" {
